@@ -17,6 +17,9 @@ CHECKS = {
  "C06": dict(technique="runtime monitoring: reference-model oracles (media-type precedence model observed through per-entry distinguishing schemas; independent body encoders; as-request reference evaluator) over ValidateRequest executions",
    text="Selection: all 127 subsets of 7 declared media-type keys x 11 Content-Type headers x every index body: the accepted index reveals the entry the library selected and must equal the documented precedence; undeclared types and required/optional empty bodies. Decoding/reading: JSON bodies over C01's schema space and over readOnly/writeOnly/required/default combinations x option sets, form-urlencoded/multipart/text bodies from independent encoders incl. fields of the wrong lexical class; verdict must equal the as-request reference. Held on the executions in evidence.",
    note="Absent Content-Type with */* declared and wildcard-selected types without a registered decoder are contested (no verdict). Trusts internal/refeval and the harness encoders.", ref="4 C06"),
+ "C07": dict(technique="runtime monitoring: boolean reference model of request validation + online trace checker of AuthenticationFunc calls, over an exhaustively enumerated case space",
+   text="Every combination of document/operation security shape, callback outcomes, parameter layout (override by (in,name), decoy same name other location), good/bad/absent rendering of each parameter and the body, body requiredness and 7 option sets is executed through the real router and ValidateRequest; the verdict must equal the boolean model, MultiError members must be exactly the failing parts, and the recorded sequence of AuthenticationFunc calls (scheme, scopes) must equal the model's evaluation order. Exhaustive over the stated finite space.",
+   note="The model is boolean because every part has an independently controlled good/bad/absent rendering; schema reasoning is C01/C05/C06's business. Callback outcomes depend on the scheme name only (scopes are checked in the trace).", ref="4 C07"),
 }
 NOT_YET = {}
 def main():
